@@ -223,6 +223,11 @@ def check(ctx):
     # ... and the election keeps the column of a candidate and its name
     # together: axis typing of the vote tables (sa/rules/axes.py; the
     # per-leaf axis L and the per-type axis T are different roles)
+    # a query stored as CSC reaches the election through the on-disk
+    # transposition: positions are used in the index space they were
+    # computed in (rule of C13)
+    from .C13 import check_index_spaces
+    check_index_spaces(ctx)
     from ..rules import axes as AX
     spec_ax = AX.load_spec()
     n_ax = 0
